@@ -18,26 +18,26 @@ CHECKS = {
 
 CHECKS.update({
     'C01': dict(level='other', technique='abstract interpretation of MIR per operand-pair cell vs exact rational oracle',
-        text=('Decides the NaR/zero algebra and guard evaluation order of + - * / (const methods) for all operand pairs of each control-determinate cell. '
-              'Does NOT decide rounding/alignment on the general arithmetic path.'), design='4/C01'),
+        text=('Decides the NaR/zero algebra and guard evaluation order of + - * / (const methods) for all operand pairs of each control-determinate cell; specification-critical operand pairs '
+              '(exact ties, saturation, powers of two) are decided singly by constant propagation through the MIR. Does NOT decide rounding/alignment on the general arithmetic path beyond those points.'), design='4/C01'),
     'C02': dict(level='other', technique='abstract interpretation of MIR per float-bit-pattern cell vs exact oracle',
         text=('Decides +-0, NaN/inf, saturation thresholds and +-1 of from_f32/from_f64 for the three types on every control-determinate cell of float bit patterns. '
-              'Does NOT decide bitround on the general path.'), design='4/C02'),
+              'Float bit patterns at and next to posit rounding midpoints are decided singly. Does NOT decide bitround on the general path beyond those points.'), design='4/C02'),
     'C06': dict(level='other', technique='abstract interpretation per cell + literal-table agreement with exact integer square roots',
         text=('P8E0::sqrt decided for all 256 inputs (table indexing term + every table entry vs exact root); P16E1/P32E2: NaR, negative, zero and literal cut-point cells. '
               'Newton-Raphson general path not decided.'), design='4/C06'),
     'C07': dict(level='other', technique='abstract interpretation of MIR per integer / posit cell vs exact round-half-even oracle',
         text=('Decides saturation thresholds, small-value branches, sign handling and narrow-width forwarding of from_*/to_* integer conversions per control-determinate cell. '
-              'General-path rounding not decided.'), design='4/C07'),
+              'Integers at and next to rounding midpoints and powers of two are decided singly. General-path rounding beyond those points not decided.'), design='4/C07'),
     'C08': dict(level='other', technique='abstract interpretation of MIR per source-format cell vs exact oracle',
         text=('The three widening conversions are proved exact for every bit pattern by bit-routing equality per regime cell; zero/NaR preservation and saturation thresholds of all six conversions (both spellings) per cell. '
-              'Narrowing rounding between thresholds not decided.'), design='4/C08'),
+              'Widen-then-narrow is proved the identity per regime cell; narrowing ties decided singly. Narrowing rounding between thresholds beyond those points not decided.'), design='4/C08'),
 })
 
 CHECKS.update({
     'C05': dict(level='other', technique='abstract interpretation per operand-triple cell + program-dependence slice (necessary dependence on the selector)',
         text=('Decides NaR propagation, zero-product results and operand order of mul_add / mul_sub / sub_product per cell; requires the general-path result of each '
-              'kernel to depend on the operation selector (otherwise the three operations coincide). Rounding/cancellation not decided.'), design='4/C05'),
+              'kernel to depend on the operation selector (otherwise the three operations coincide); ternary probes (tie products with tiny addends, cancellation, results next to maxpos/minpos) decided singly. Rounding/cancellation beyond those points not decided.'), design='4/C05'),
     'C17': dict(level='proof', technique='symbolic term evaluation of MIR (forwarder wiring): term(forwarder) == term(expected inherent target)',
         text=('Every operator / From / num_traits / Quire trait method of the three posit and three quire types is proved to denote the expected inherent target applied '
               'to its parameters in order (or the expected named constant); AssociatedQuire and type aliases from the impl/alias tables. Obligations = forwarders + table entries; all discharged.'),
@@ -54,14 +54,14 @@ CHECKS.update({
 CHECKS.update({
     'C03': dict(level='proof', technique='bit-level abstract interpretation (symbolic bit-vector routing) per regime cell partitioning all encodings',
         text=('to_f32/to_f64 of P8E0 and P16E1 and to_f64 of P32E2 are proved exact for every bit pattern: on each regime cell (sign x regime run x exponent bits, fraction bits symbolic) the result is '
-              'bit-for-bit the specified routing; zero/NaR cells; P32E2::to_f32 = `to_f64() as f32`; Display/FromStr wiring through f64. The float/text round-trip identities additionally need C02 on the general path and are NOT claimed.'),
+              'bit-for-bit the specified routing; zero/NaR cells; P32E2::to_f32 = `to_f64() as f32`; Display/FromStr wiring through f64; posit -> float -> posit is proved the identity for every pattern by composing the two routings per regime cell (856 cells). float -> posit -> float needs C02 on the general path and is NOT claimed.'),
         design='4/C03'),
     'C04': dict(level='other', technique='abstract interpretation on accumulator-state x operand cells, term-mode expansion of operand spellings, dependence slices',
         text=('is_zero/is_nar decided for every accumulator state (all limbs), to_posit returns 0/NaR exactly there; NaR stickiness and zero operands for all base spellings; every tuple/array `+=`/`-=` spelling expands to the '
-              'expected products with the expected sign; accumulated value depends on flag, operands, accumulator. Exact product placement / carries / single rounding NOT decided.'), design='4/C04'),
+              'expected products with the expected sign; accumulated value depends on flag, operands, accumulator; accumulate sequences whose exact sum is a tie, a near-tie or cancels are decided singly (fixed-point image and single rounding). Exact product placement / carries / single rounding beyond those sequences NOT decided.'), design='4/C04'),
     'C12': dict(level='other', technique='term-mode evaluation + state-cell abstract interpretation + bit routing per regime cell',
         text=('from_bits(to_bits(q)) = q, clear(), neg() on every zero/non-zero limb pattern (incl. 512-bit Q32E2), the to_posit / -= alternation of into_two/three_posits, From<P> for Q = ZERO += (p, ONE); '
-              'Q8E0 posit->quire->posit proved the identity for all patterns, Q16E1 for 104 of 110 regime cells. Exactness of the subtractions inside the split and the Q32E2 round trip NOT decided.'), design='4/C12'),
+              'Q8E0 posit->quire->posit proved the identity for all patterns, Q16E1 for 104 of 110 regime cells, Q32E2 for 200 of 462. Exactness of the subtractions inside the split and the remaining round-trip cells NOT decided.'), design='4/C12'),
     'C18': dict(level='proof', technique='term-mode abstract interpretation with a formal-polynomial domain over the generic default bodies',
         text=('poly1..poly18, poly3a, poly4a denote sum c[i]*x^(n-i) with exactly the documented rounded powers (x*x, x2*x, x2*x2) and quire stages; the three posit types use the default bodies. '
               'Assumes a quire stage is the exact sum rounded once (C04) and * is the rounded product (C01).'), design='4/C18'),
@@ -71,10 +71,10 @@ CHECKS.update({
     'C13': dict(level='other', technique='abstract interpretation per bound N on N-bit pattern cells + unit/layout dataflow (R8) + selector dependence slice (R5)',
         text=('NaR/zero algebra, N==2 branches and guard cells of + - * / mul_add mul_sub sub_product sqrt round of PxE1<N>/PxE2<N> per bound N (quick: 8 widths, thorough: all 31); '
               'exponent extraction and regime scaling must use the units of the decoding type; the kernel result must depend on the selector. N-bit rounding on the general path and the '
-              'PxE2<32>==P32E2 / PxE1<16>==P16E1 equivalences are NOT decided. 20 genuine defects of the generic kernels are listed as known findings.'), design='4/C13'),
+              'PxE2<32>==P32E2 / PxE1<16>==P16E1 equivalences are NOT decided. 19 genuine defects of the generic kernels are listed as known findings.'), design='4/C13'),
     'C14': dict(level='other', technique='abstract interpretation per bound N (and per (M,N) pair) on source cells + bit routing per regime cell for to_f64',
-        text=('Zero/NaR preservation, N==2 and saturation cells, integer heads of all generic-width conversions per bound N; to_f64 proved exact by routing for the analysed widths. '
-              'Truncation/rounding at bit N on the general path, from_f64 (float loop) and quire->PxE2 NOT decided. 13 genuine defects listed as known findings.'), design='4/C14'),
+        text=('Zero/NaR preservation, N==2 and saturation cells, integer heads of all generic-width conversions per bound N; to_f64 and the fixed-width -> generic-width conversions proved exact by routing for the analysed widths; from_f64 decided on probe floats. '
+              'Truncation/rounding at bit N on the general path and quire->PxE2 NOT decided. 14 genuine defects listed as known findings.'), design='4/C14'),
 })
 
 CHECKS.update({
@@ -82,8 +82,8 @@ CHECKS.update({
         text=('P8E0::exp and P8E0::ln decided for all 256 inputs (table index term, bounds, every entry vs the correctly rounded value); the ten P16E1 functions decided on every cell in front of '
               'the polynomial kernels (NaR, domain errors, exact zeros, saturation, rounds-to-1 cut-offs; thorough tier checks every point of each decided cell). The fixed-point kernels are NOT decided.'),
         design='4/C11'),
-    'C15': dict(level='other', technique='abstract interpretation (constant / interval propagation through the SLEEF-style bodies) on NaR and out-of-domain cells',
-        text=('NaR input gives NaR and out-of-domain arguments (ln/log2 of x<=0, asin/acos of |x|>1) give NaR for the 16 P32E2 functions. The stated ULP error bounds are NOT decided (no claim).'),
+    'C15': dict(level='other', technique='abstract interpretation (constant / interval propagation through the SLEEF-style bodies) on NaR and out-of-domain cells; constant rule on the Cody-Waite split constants',
+        text=('NaR input gives NaR and out-of-domain arguments (ln/log2 of x<=0, asin/acos of |x|>1) give NaR for the 16 P32E2 functions; the three-part splits of pi, ln 2 and log10 2 used by the argument reductions are correctly rounded splits of the real constants. The stated ULP error bounds are NOT decided (no claim).'),
         design='4/C15'),
 })
 
@@ -97,8 +97,8 @@ CHECKS.update({
 CHECKS.update({
     'C16': dict(level='other', technique='abstract-interpretation totality sweep over all externally reachable functions + path-sensitive decoder-precondition proofs + cross-profile MIR diff',
         text=('Every externally reachable function with posit / quire / integer / float parameters is swept on a partition of its inputs for determinate panics, failing overflow / shift / bounds assertions and '
-              'non-termination (findings keyed by failing site); whole-body todo!() stubs and the clamp contract are exempt. The bodies are identical across build profiles up to overflow assertions '
-              '(no debug_assert / cfg(debug_assertions)). The ~2800 overflow assertions of the general arithmetic paths are NOT discharged. 29 genuine defects are listed as known findings.'),
+              'non-termination (findings keyed by failing site and by public entry); whole-body todo!() stubs and the clamp contract are exempt. The bodies are identical across build profiles up to overflow assertions '
+              '(no debug_assert / cfg(debug_assertions)). The ~2800 overflow assertions of the general arithmetic paths are NOT discharged. 31 genuine defects are listed as known findings.'),
         design='4/C16'),
 })
 
